@@ -4,13 +4,13 @@ import json
 HOOK_COMMITS = ["b89d4c1"]  # fix: commits 070411f 400b628 3c1ee3e are unguarded repairs, see known_findings.json
 CHECKS = {
  "C01": ("model_checking", "seqx", "explicit-state BFS over handle histories on the real crate (re-execution per transition), reference-model + model-independent lifetime invariant",
-         "Every reachable state of the bounded handle machine (all handle kinds and conversion paths, <=4/5 live handles, <=2 live allocations) is reached by executing the real crate; in every state a model-independent invariant (value intact while a handle points at its block; destroyed exactly once and block freed when none does) and the reference model's step expectations are checked, and every transition ends with a full release and leak check. This is the right level because C01 quantifies over histories, which the bounded search enumerates to a fixpoint.",
+         "Every reachable state of the bounded handle machine (universes S and SW: sized payload, 8- and 64-aligned, ten handle kinds incl. raw/dyn/erased/arc-swap, plus operations whose Clone panics; T and TW: thin/fat/protected/raw handles with every with_arc_mut behaviour; L: slices and str; <=5 (quick) / <=7 (thorough) live handles, <=2 live allocations) is reached by executing the real crate; in every state a model-independent invariant (value intact while a handle points at its block; destroyed exactly once and block freed when none does) and the reference model's step expectations are checked, and every transition ends with a full release and leak check. This is the right level because C01 quantifies over histories, which the bounded search enumerates to a fixpoint.",
          "bounds on live handles/allocations; arena allocator and tracked payloads trusted; unstable_dropck_eyepatch not built"),
  "C02": ("model_checking", "loomx", "stateless exploration with loom (DPOR + C11 memory model) of the real crate through the atomic shim",
-         "For every multiset of small per-thread clone/read/convert/drop programs loom enumerates every interleaving and every legal load result on the crate's real atomics; per execution: destroyed once, released once, by one thread, destruction and release ordered after every payload and count access (loom race detector on payload cell and count-word shadow), nothing touched after release.",
+         "For every multiset of small per-thread clone/read/convert/drop programs loom enumerates every interleaving and every legal load result on the crate's real atomics; (each thread owning a handle, or several threads cloning through a shared reference to one handle) loom checks per execution: destroyed once, released once, by one thread, destruction and release ordered after every payload and count access (loom race detector on payload cell and count-word shadow), nothing touched after release.",
          "loom's memory model; 2 spawned threads unbounded, 3-4 preemption-bounded; programs <=3 ops; payload accesses routed through loom cells"),
- "C03": ("model_checking", "seqx+loomx", "explicit-state BFS (verdict vs owner count in every state) + loom exploration of poll-and-mutate programs",
-         "History half: every gated API in every reachable state grants iff the model has exactly one owner, and a decline returns the same handle. Schedule half: loom explores one polling writer against reading/dropping threads; a granted write must not race with any earlier access and must never be seen by another owner.",
+ "C03": ("model_checking", "seqx+loomx+gridx", "explicit-state BFS (verdict vs owner count in every state) + loom exploration of poll-and-mutate programs + degenerate-payload grid",
+         "History half: every gated API in every reachable state (universes S, SW, T, TW, L) grants iff the model has exactly one owner, and a decline returns the same handle; a grid repeats this for zero-sized, over-aligned-zero-sized, empty-slice and empty-str payloads with every co-owner kind. Schedule half: loom explores one polling writer against reading/dropping threads; a granted write must not race with any earlier access and must never be seen by another owner.",
          "as C01 and C02"),
  "C04": ("model_checking", "seqx", "explicit-state BFS with count oracle and counter-write log",
          "After every step of every history the count is read through every accessor of every live handle (and inside borrow callbacks) and must equal the model's owner count; the hook log must show exactly one +1 per clone-style step, one -1 per release and no write at all for moves, conversions, borrows, comparisons.",
@@ -19,7 +19,7 @@ CHECKS = {
          "History half: make_mut/make_unique/OffsetArc::make_mut in every state: in place iff sole owner, otherwise exactly one Clone, one fresh block, old allocation loses one owner, every other handle still reads the old value. Schedule half: under loom the writer's write never races with or becomes visible to another owner and both branches occur.",
          "as C01 and C02"),
  "C09": ("model_checking", "seqx+loomx", "explicit-state BFS (unwrap oracle) + loom exploration of racing unwrap/drop programs",
-         "History half: try_unwrap/try_unique/TryFrom/into_inner/unwrap_or_clone in every state: value out (intact, destructor not run, block freed) iff sole owner, else the same handle back. Schedule half: in every loom execution the value is moved out to at most one thread or destroyed exactly once and its memory is released once.",
+         "History half: try_unwrap/try_unique/TryFrom/into_inner/unwrap_or_clone in every state: value out (intact, destructor not run, block freed) iff sole owner, else the same handle back. Schedule half: in every loom execution the value is moved out to at most one thread (which then writes to it: the write must not race with anyone) or destroyed exactly once, and its memory is released once.",
          "as C01 and C02"),
  "C05": ("exploration", "gridx", "exhaustive enumeration of the (header shape x element shape x length x constructor x release path) grid on the real crate under a logging allocator; overflow boundaries in child processes",
          "Every cell of the shape matrix (21 (size,align) points incl. zero-sized and over-aligned, all ordered pairs in the thorough tier) x length x constructor x release path is executed on the real crate; the arena allocator records each request and return: request >= count + payload by the compiler's own layout rules, payload addresses aligned and inside the block, exactly one return of that block with the requested (size, align), no write outside it. Length-only constructors and lying ExactSizeIterators are driven to every overflow boundary in child processes.",
@@ -52,7 +52,7 @@ CHECKS = {
          "For every value of the payload family (integers, strings, tuples, sequences, options, hand-written struct/enum/newtype+map) and every k the sequence of Serializer calls and the result through Arc<T>/UniqueArc<T> must be identical to those of serialising the value; for every input tree (well-formed and ill-typed) and every k deserialising the handle is Ok iff the value's deserializer is Ok, with an equal value, count 1 and exactly one extra allocation, and on Err the same error and nothing left allocated.",
          "two hand-written serde back ends stand for 'every serializer'; serde feature on"),
  "C10": ("model_checking", "seqx+gridx", "explicit-state BFS over thin/fat handle histories incl. every with_arc_mut callback behaviour x {return, panic}; exhaustive recorded-length grid for into_thin",
-         "Universe T of the explicit-state search reaches every state of fat, protected, thin, raw and unique handles to header+slice allocations of length 0 and 2 (<=4/5 handles, <=2 allocations); in every state thin and fat views must show the same header, recorded length == slice length, and identical element addresses; conversions keep the block and write no count; every with_arc_mut callback behaviour (nothing, write, clone out, replace by a fresh Arc, swap with another live Arc) with and without a panic must leave the ThinArc pointing at what the callback left and the replaced allocation with exactly one owner less. The grid half calls into_thin for every (true length, recorded length, shape pair, sole/co-owned).",
+         "Universe T of the explicit-state search reaches every state of fat, protected, thin, raw and unique handles to header+slice allocations of length 0 and 2 (<=4/5 handles, <=2 allocations); in every state thin and fat views must show the same header, recorded length == slice length, and identical element addresses; conversions keep the block and write no count; every with_arc_mut callback behaviour (nothing, write, clone out, replace by a fresh Arc, swap with another live Arc) with and without a panic must leave the ThinArc pointing at what the callback left and the replaced allocation with exactly one owner less. The grid half calls into_thin for every (true length, recorded length, shape pair, sole/co-owned) and ThinArc::from_header_and_iter under every 3-answer script of ExactSizeIterator::len().",
          "bounds as stated; lengths {0,2} in the search, 0..=4 (6) in the grid"),
 }
 props = [json.loads(l) for l in open('/verif/properties.jsonl')]
@@ -68,7 +68,7 @@ m = {
  },
  "engines": [
   {"name": "seqx", "path": "harness/seqx", "serves_properties": ["C01", "C03", "C04", "C08", "C09", "C10", "C11"], "kind_free_text": "explicit-state BFS over handle histories; each transition re-executes the history on the real crate under the arena allocator and compares with a reference model"},
-  {"name": "gridx", "path": "harness/gridx", "serves_properties": ["C05", "C06", "C07", "C10", "C11", "C12", "C14", "C15", "C16", "C17"], "kind_free_text": "exhaustive enumeration of finite shape / input / fault grids, each cell executed on the real crate under the arena allocator"},
+  {"name": "gridx", "path": "harness/gridx", "serves_properties": ["C03", "C05", "C06", "C07", "C10", "C11", "C12", "C14", "C15", "C16", "C17"], "kind_free_text": "exhaustive enumeration of finite shape / input / fault grids, each cell executed on the real crate under the arena allocator"},
   {"name": "typex", "path": "lib/typex.py", "serves_properties": ["C13"], "kind_free_text": "generator of client probe crates + cargo check driver; rustc decides each cell"},
   {"name": "loomx", "path": "harness/loomx", "serves_properties": ["C02", "C03", "C08", "C09"], "kind_free_text": "loom 0.7.2 stateless exploration of thread programs on the real crate through the cfg(triomphe_verif) atomic shim"},
  ],
